@@ -227,11 +227,11 @@ def s5(ctx, rep, clause="S5"):
     ok = k is not None and len(cmpn) == 1
     why = "sign is not a mode-derived factor that flips with the mode"
     if ok:
-        c = cmpn[0]
+        c = parity.oriented(cmpn[0], "0") or cmpn[0]
         # sign * (metric - cutoff) < 0  rejects; with sign = -1 for min (k = -1): metric - cutoff > 0 rejects for min
         l = c.left
         ok = isinstance(l, ast.BinOp) and isinstance(l.op, ast.Mult) and sname in (U(l.left), U(l.right)) and U(c.comparators[0]) == "0"
-        other = l.right if U(l.left) == sname else l.left
+        other = (l.right if U(l.left) == sname else l.left) if ok else None
         ok = ok and isinstance(other, ast.BinOp) and isinstance(other.op, ast.Sub) and U(other.left) == mname and U(other.right) == cut
         # direction: min (k) : reject iff k*(m - c) < 0 ; must be "m > c" => k = -1 ; strictness: equality is not rejected
         ok = ok and isinstance(c.ops[0], ast.Lt) and k == -1
